@@ -119,6 +119,19 @@ namespace mfuse
         ScriptVariable* pTop;
     };
 
+#ifdef MORFUSE_VERIF
+    class ScriptVM;
+    namespace verif
+    {
+        /**
+         * When non-null, called before every instruction is fetched (offset = code position in the
+         * program buffer) and once when a VM whose thread ended leaves Execute (offset = -1).
+         * marked = the stack top currently points into the caller's argument cells (stackIndex is meaningless then).
+         */
+        extern void (*vm_probe)(const ScriptVM* vm, intptr_t offset, uintptr_t stackIndex, size_t stackSize, bool marked);
+    }
+#endif
+
     class ScriptVM
     {
         friend class ScriptClass;
